@@ -1001,6 +1001,7 @@ def _advance_head_front(state: State, heads: List[FlowHead]) -> List[FlowHead]:
 
         flow_finished = False
         flow_aborted = False
+        colang_error_event: Optional[Event] = None
         try:
             # Updating the head position evaluates the next element (event matching
             # structures), so it must be covered by the error handling as well
@@ -1074,7 +1075,6 @@ def _advance_head_front(state: State, heads: List[FlowHead]) -> List[FlowHead]:
                     "error": str(e),
                 },
             )
-            _push_internal_event(state, colang_error_event)
             flow_aborted = True
 
         if flow_finished:
@@ -1095,6 +1095,10 @@ def _advance_head_front(state: State, heads: List[FlowHead]) -> List[FlowHead]:
                 flow_state.new_instance_started = True
             _abort_flow(state, flow_state, head.matching_scores)
             log.debug("Flow aborted: %s by 'abort' statement", head.flow_state_uid)
+            if colang_error_event is not None:
+                # The error is processed before the failed flow is restarted, such that
+                # a flow never reacts to the error of its own previous instance
+                _push_left_internal_event(state, colang_error_event)
 
     # Make sure that all actionable heads still exist in flows, otherwise remove them
     actionable_heads = [
